@@ -719,3 +719,233 @@ func init() {
 		Doc: "float round(): a float64 obtained from decimal text or math.Pow/Pow10 (inexact beyond 10**22) is only returned, never an operand of float arithmetic or ordered comparison; the half-unit test is exact",
 		Run: runRoundExact})
 }
+
+// ---- C15.R11: a comparison of a float with an int never goes through a lossy int-to-float conversion ----
+//
+// An int beyond 2**53 is in general not a float64. The six comparison methods of Float therefore must not
+// convert an Int or *BigInt operand to a float and compare the floats: the function that prepares the
+// operands has arms of its own for Int and *BigInt, and a conversion of the operand to a float inside them
+// lies under a magnitude test against constants within +-2**53.
+func runExactMixedCompare(c *Ctx, r *Rep) {
+	p := c.MustPkg("py")
+	info := p.TypesInfo
+	lim := new(big.Int).Lsh(big.NewInt(1), 53)
+	named := func(t types.Type) string {
+		if pt, ok := t.(*types.Pointer); ok {
+			t = pt.Elem()
+		}
+		if nt, ok := t.(*types.Named); ok && nt.Obj().Pkg() == p.Types {
+			return nt.Obj().Name()
+		}
+		return ""
+	}
+	// constant value of e, if any, as a big.Int
+	constInt := func(e ast.Expr) *big.Int {
+		tv, ok := info.Types[e]
+		if !ok || tv.Value == nil {
+			return nil
+		}
+		v := constant.ToInt(tv.Value)
+		if v.Kind() != constant.Int {
+			return nil
+		}
+		z, ok := new(big.Int).SetString(v.ExactString(), 10)
+		if !ok {
+			return nil
+		}
+		return z
+	}
+	// does cond bound obj on both sides within +-2**53?
+	bounded := func(cond ast.Expr, obj types.Object) bool {
+		lo, hi := false, false
+		var walk func(e ast.Expr)
+		walk = func(e ast.Expr) {
+			be, ok := unparen(e).(*ast.BinaryExpr)
+			if !ok {
+				return
+			}
+			if be.Op == token.LAND {
+				walk(be.X)
+				walk(be.Y)
+				return
+			}
+			for _, s := range []struct {
+				v, k ast.Expr
+				op   token.Token
+			}{{be.X, be.Y, be.Op}, {be.Y, be.X, flipOp(be.Op)}} {
+				id, ok := unparen(s.v).(*ast.Ident)
+				if !ok || info.ObjectOf(id) != obj {
+					continue
+				}
+				k := constInt(s.k)
+				if k == nil || new(big.Int).Abs(k).Cmp(lim) > 0 {
+					continue
+				}
+				switch s.op {
+				case token.GEQ, token.GTR:
+					lo = true
+				case token.LEQ, token.LSS:
+					hi = true
+				}
+			}
+		}
+		walk(cond)
+		return lo && hi
+	}
+	// the conversions of obj to a float inside body that are not under a bounding if
+	var unguarded func(n ast.Node, obj types.Object, guarded bool, out *[]ast.Node)
+	unguarded = func(n ast.Node, obj types.Object, guarded bool, out *[]ast.Node) {
+		if n == nil {
+			return
+		}
+		if is, ok := n.(*ast.IfStmt); ok {
+			unguarded(is.Init, obj, guarded, out)
+			unguarded(is.Cond, obj, guarded, out)
+			unguarded(is.Body, obj, guarded || bounded(is.Cond, obj), out)
+			unguarded(is.Else, obj, guarded, out)
+			return
+		}
+		if call, ok := n.(*ast.CallExpr); ok {
+			uses := func(e ast.Expr) bool {
+				id, ok := unparen(e).(*ast.Ident)
+				return ok && info.ObjectOf(id) == obj
+			}
+			conv := false
+			if tv, ok := info.Types[call.Fun]; ok && tv.IsType() && isFloatT(tv.Type) && len(call.Args) == 1 && uses(call.Args[0]) {
+				conv = true // Float(b), float64(b)
+			} else if sel, ok := call.Fun.(*ast.SelectorExpr); ok && uses(sel.X) {
+				if tv, ok := info.Types[call]; ok {
+					t := tv.Type
+					if tup, ok := t.(*types.Tuple); ok && tup.Len() > 0 {
+						t = tup.At(0).Type()
+					}
+					conv = isFloatT(t) // b.Float()
+				}
+			} else if cal := Callee(info, call); cal != nil && cal.Pkg() == p.Types {
+				for _, a := range call.Args {
+					if uses(a) {
+						if sig, _ := cal.Type().(*types.Signature); sig != nil && sig.Results().Len() > 0 && isFloatT(sig.Results().At(0).Type()) {
+							conv = true // convertToFloat(b)
+						}
+					}
+				}
+			}
+			if conv && !guarded {
+				*out = append(*out, call)
+			}
+		}
+		// children
+		var kids []ast.Node
+		first := true
+		ast.Inspect(n, func(m ast.Node) bool {
+			if first {
+				first = false
+				return true
+			}
+			if m != nil {
+				kids = append(kids, m)
+			}
+			return false
+		})
+		for _, k := range kids {
+			unguarded(k, obj, guarded, out)
+		}
+	}
+	// examine a preparing function: arms for Int and *BigInt of its type switch on the operand
+	examine := func(fn *types.Func) (ok bool, why string, pos token.Pos) {
+		fd := c.Decl(fn)
+		if fd == nil || fd.Body == nil {
+			return false, "no source", token.NoPos
+		}
+		var ts *ast.TypeSwitchStmt
+		ast.Inspect(fd.Body, func(n ast.Node) bool {
+			if t, ok := n.(*ast.TypeSwitchStmt); ok && ts == nil {
+				ts = t
+			}
+			return ts == nil
+		})
+		if ts == nil {
+			return false, "it has no type switch on the operand", fd.Pos()
+		}
+		seen := map[string]bool{}
+		for _, cl := range ts.Body.List {
+			cc := cl.(*ast.CaseClause)
+			for _, e := range cc.List {
+				tv, ok := info.Types[e]
+				if !ok || !tv.IsType() {
+					continue
+				}
+				nm := named(tv.Type)
+				if nm != "Int" && nm != "BigInt" {
+					continue
+				}
+				seen[nm] = true
+				obj := info.Implicits[cc]
+				if obj == nil {
+					continue
+				}
+				var bad []ast.Node
+				for _, s := range cc.Body {
+					unguarded(s, obj, false, &bad)
+				}
+				if len(bad) > 0 {
+					return false, fmt.Sprintf("its %s arm converts the operand to a float (`%s`) outside a magnitude test against constants within +-2**53", nm, nodeStr(bad[0])), bad[0].Pos()
+				}
+			}
+		}
+		if !seen["Int"] || !seen["BigInt"] {
+			return false, "its type switch has no arm of its own for Int and for *BigInt", ts.Pos()
+		}
+		return true, "", fd.Pos()
+	}
+	for _, m := range []string{"M__lt__", "M__le__", "M__eq__", "M__ne__", "M__gt__", "M__ge__"} {
+		fd := c.MethodDecl("py", "Float", m)
+		id := "(py.Float)." + m
+		if fd == nil || fd.Body == nil || fd.Type.Params == nil || len(fd.Type.Params.List) != 1 || len(fd.Type.Params.List[0].Names) != 1 {
+			r.undecided("exactcmp|"+id, token.NoPos, "method not found or of an unexpected shape")
+			continue
+		}
+		r.analysed(id)
+		other := info.ObjectOf(fd.Type.Params.List[0].Names[0])
+		var prep *types.Func
+		var at token.Pos
+		ast.Inspect(fd.Body, func(n ast.Node) bool {
+			call, ok := n.(*ast.CallExpr)
+			if !ok || prep != nil {
+				return prep == nil
+			}
+			cal := Callee(info, call)
+			if cal == nil || cal.Pkg() != p.Types {
+				return true
+			}
+			for _, a := range call.Args {
+				if id, ok := unparen(a).(*ast.Ident); ok && info.ObjectOf(id) == other {
+					prep, at = cal, call.Pos()
+				}
+			}
+			return prep == nil
+		})
+		if prep == nil {
+			r.undecided("exactcmp|"+id, fd.Pos(), "no call handing the operand to a function of the package; confirm how the operand is prepared and update the rule")
+			continue
+		}
+		// a delegation to another comparison method of the same type is decided there
+		if sig, _ := prep.Type().(*types.Signature); sig != nil && sig.Recv() != nil && strings.HasPrefix(prep.Name(), "M__") {
+			r.ok("exactcmp|"+id, at, "delegates to %s", prep.Name())
+			continue
+		}
+		ok, why, pos := examine(prep)
+		if pos == token.NoPos {
+			pos = at
+		}
+		r.check(ok, "exactcmp|"+id, pos,
+			fmt.Sprintf("the operand is prepared by %s, whose Int and *BigInt arms do not convert it to a float except within +-2**53", prep.Name()),
+			fmt.Sprintf("the operand is prepared by %s, but %s: an int beyond 2**53 is rounded before it is compared, so 2**53+1 == float(2**53) answers True", prep.Name(), why))
+	}
+}
+
+func init() {
+	register(&Rule{ID: "C15.R11", Prop: "C15", Floor: 6,
+		Doc: "exact int/float comparison: the function preparing the operand of each Float comparison method has Int and *BigInt arms of its own, in which the operand is converted to a float only under a magnitude test against constants within +-2**53 (evaluated by the type checker)",
+		Run: runExactMixedCompare})
+}
